@@ -848,9 +848,11 @@ package rockredis
 //@   ensures fresh(result) && len(result) == 8
 
 // ZADD of one member: the member key and the score key of the NEW score are what the batch holds for them at the
-// end (a stale score key is deleted before, never after, the new one is buffered); an unchanged score buffers nothing
+// end (a stale score key is deleted before, never after, the new one is buffered; the key that is deleted is the
+// one of the STORED score `s`, the only place a changed score leaves an index entry behind); an unchanged score buffers nothing
 //@ func (db *RockDB) zSetItem(table []byte, rk []byte, score float64, member []byte, wb engine.WriteBatch) (int64, error)
 //@   requires db != nil && wb != nil && smallTK(table, rk)
+//@   callassert Delete kid(arg1) == zsKid(table, rk, member, s)
 //@   ensures result1 == nil ==> (result0 == 0 || result0 == 1)
 //@   ensures result1 == nil ==> ghost(misses, db) == old(ghost(misses, db)) + ite(result0 == 0, 1, 0) && ghost(hits, db) == old(ghost(hits, db)) + ite(result0 == 1, 1, 0)
 //@   ensures result1 == nil && ghost(wbver, wb) != old(ghost(wbver, wb)) ==> bst(wb, ghost(wbver, wb), zmKid(table, rk, member)) == 1 && bst(wb, ghost(wbver, wb), zsKid(table, rk, member, score)) == 1
